@@ -6,11 +6,6 @@ import SuccinctlyVerif.Proof.EliasFanoCursor
 namespace SV.EF
 open SV SV.Scan
 
-/-- An operation is admissible when `advance_by`'s `self.idx + k` cannot wrap around `usize`. -/
-def OpOk (n : Nat) : EFSpec.Op → Prop
-  | .advanceBy k => n + k < 2 ^ 64
-  | _ => True
-
 section
 variable {R : Nat} {vs : List Nat} {ef : EliasFano}
 
@@ -57,7 +52,7 @@ theorem toList_spec (hb : Built R vs ef) (hs : EFSpec.Sorted vs) (hu : EFSpec.Al
 
 theorem stepOp_spec (hb : Built R vs ef) (hs : EFSpec.Sorted vs) (hu : EFSpec.AllU32 vs)
     (hR : 0 < R) (h32 : 64 * ef.highBits.length ≤ 2 ^ 32)
-    (c : Cursor) (hc : CurInv vs ef c) (op : EFSpec.Op) (hop : OpOk vs.length op) :
+    (c : Cursor) (hc : CurInv vs ef c) (op : EFSpec.Op) :
     ∃ c', stepOp R ef c op = some (c', (EFSpec.step vs c.idx op).2) ∧
       c'.idx = (EFSpec.step vs c.idx op).1 ∧ CurInv vs ef c' := by
   cases op with
@@ -65,8 +60,7 @@ theorem stepOp_spec (hb : Built R vs ef) (hs : EFSpec.Sorted vs) (hu : EFSpec.Al
     obtain ⟨c', h1, h2, h3⟩ := advanceOne_spec hb hs hu c hc
     exact ⟨c', by simp [stepOp, EFSpec.step, h1], h2, h3⟩
   | advanceBy k =>
-    have hk : c.idx + k < 2 ^ 64 := by have := hc.1; simp only [OpOk] at hop; omega
-    obtain ⟨c', h1, h2, h3⟩ := advanceBy_spec hb hs hu hR h32 c hc k hk
+    obtain ⟨c', h1, h2, h3⟩ := advanceBy_spec hb hs hu hR h32 c hc k
     exact ⟨c', by simp [stepOp, EFSpec.step, h1], h2, h3⟩
   | seek i =>
     obtain ⟨c', h1, h2, h3⟩ := seek_spec hb hs hu hR h32 c i
@@ -89,14 +83,14 @@ theorem observe_spec (hb : Built R vs ef) (hs : EFSpec.Sorted vs) (hu : EFSpec.A
 
 theorem run_spec (hb : Built R vs ef) (hs : EFSpec.Sorted vs) (hu : EFSpec.AllU32 vs)
     (hR : 0 < R) (h32 : 64 * ef.highBits.length ≤ 2 ^ 32)
-    (ops : List EFSpec.Op) (c : Cursor) (hc : CurInv vs ef c) (hops : ∀ op ∈ ops, OpOk vs.length op) :
+    (ops : List EFSpec.Op) (c : Cursor) (hc : CurInv vs ef c) :
     run R ef c ops = some (EFSpec.runPlain vs c.idx ops) := by
   induction ops generalizing c with
   | nil => rfl
   | cons op ops ih =>
-    obtain ⟨c', h1, h2, h3⟩ := stepOp_spec hb hs hu hR h32 c hc op (hops op (by simp))
+    obtain ⟨c', h1, h2, h3⟩ := stepOp_spec hb hs hu hR h32 c hc op
     simp only [run, h1, observe_spec hb hs hu c' h3, EFSpec.runPlain]
-    rw [ih c' h3 (fun o ho => hops o (List.mem_cons_of_mem _ ho)), h2]
+    rw [ih c' h3, h2]
 
 end
 end SV.EF
